@@ -715,12 +715,16 @@ def run(ctx):
         "front/back, forward/reverse/const iteration; at(i) throws for every i in {size, size+1, size+2, 2^31, 2^32, 2^32+size, 2^61.., 2^62.., 2^63-1, 2^63, 2^63+size, SIZE_MAX/sizeof(T), SIZE_MAX/sizeof(T)+1, SIZE_MAX-size, SIZE_MAX-1, SIZE_MAX}, "
         "checked build: operator[](i), operator()(i) for the same i, get<N> for N<0 or N>=size, and front/back on empty views are rejected (probes that would bind a null reference on data()==nullptr views run in a forked process); every element is written through [], at, iterator, reverse iterator, front, back and the whole block (guards included) compared with the model; "
         "invalid => (checked build) an exception and no view. ASan (recover mode) is polled after every request. "
+        "BUILD CONFIGURATIONS: config.cpp is compiled for every {no NDEBUG, NDEBUG} x {none, THROW, TERMINATE, NO_CHECKING} x {xspan.hpp, xspan_impl.hpp} and runs, on span<int,dyn>/span<int,N> parents of 0..3 elements, the in-range part "
+        "(every valid request and accessor, by address) and at(i>=size) in all of them, and in those where checking is enabled by the pinned rules (explicit request wins over NDEBUG) a reduced out-of-range set "
+        "{size(+1), size+2, 2^32, 2^63, SIZE_MAX-1, SIZE_MAX, wrapping sums} on each of the 22 contract-checked entry points, each request in a forked child that must end in an exception or std::terminate. "
         "distinct_nontrivial = distinct request keys (64-bit FNV-1a of the key, merged over all binaries) that are invalid requests, or valid sub-view requests denoting a non-empty proper sub-range, or constructor/conversion requests "
         "over >= 1 element, plus distinct out-of-range index probes (request key, accessor, index); whole-range and empty views and in-range element probes are counted as trivial. evaluations = judged API calls (requests + probes) summed over all binaries."
         % (b["nmax"], b["static_parents"], [ELEMS[i] for i in b["elems"]], b["sargs"][0], b["sargs"][-1], ["dyn" if p < 0 else p for p in b["sparents"]], n_probes))
     ctx.assumptions += [
         "rejection in the checked build = any exception (the exception type is recorded as outcome_threw_* / at_out_of_range_threw_*, not judged)",
-        "TCB_SPAN_TERMINATE_ON_CONTRACT_VIOLATION (the default without NDEBUG) evaluates the same TCB_SPAN_EXPECT conditions and is not run separately",
+        "build configurations: the full enumeration runs in {THROW, NO_CHECKING} without NDEBUG via xspan.hpp; the other 14 of {no NDEBUG, NDEBUG} x {none, THROW, TERMINATE, NO_CHECKING} x {xspan.hpp, xspan_impl.hpp} run the reduced set of config.cpp (every contract-checked entry point, parents of 0..3 ints)",
+        "what a macro combination means (checking enabled or not) is the table expected_checking in check.py, restating the pinned default-selection block (explicit request wins over NDEBUG); it is not read from the tree under test",
         "reversed pointer pairs, null pointers with non-zero counts and counts larger than the storage behind the pointer are undefined preconditions and are not exercised",
         "comparison operators, as_bytes/as_writable_bytes and tuple_size/tuple_element are not part of the statement and are not judged (operator() and get<N> are enumerated)",
         "bounds: parent sizes <= %d; arguments outside the alphabet A(n) (e.g. arbitrary values between n+3 and 2^31) are not executed" % b["nmax"],
